@@ -103,10 +103,15 @@ kfold_harness!(c16_kfold_n8_k5, 8, 5, 11);
 kfold_harness!(c16_kfold_n8_k6, 8, 6, 11);
 kfold_harness!(c16_kfold_n8_k7, 8, 7, 11);
 kfold_harness!(c16_kfold_n8_k8, 8, 8, 11);
+// spot shapes beyond the exhaustive bound n <= 8 (index vector > 64 bytes; n%k >= 2; the repo's own numpy-parity shape 10/3)
+kfold_harness!(c16_kfold_n9_k2, 9, 2, 12);
+kfold_harness!(c16_kfold_n10_k3, 10, 3, 13);
+kfold_harness!(c16_kfold_n12_k5, 12, 5, 15);
 
-// n_splits < 2: the code refuses (panics) instead of producing a degenerate split.  The panic message formats the
-// number (expensive under CBMC), so alloc::fmt::format is not reached: panic! with arguments goes through
-// core::panicking, which Kani models as an assertion failure.  #[kani::should_panic] turns that into the obligation.
+// n_splits < 2 (outside the property's domain n >= k >= 2): the code refuses (panics) instead of producing a degenerate
+// split.  Kani cannot catch a panic, so the obligation is #[kani::should_panic] - ANY panic satisfies it, and when the
+// panic disappears Kani prints FAILED without a failed check, which vc reports as inconclusive (exit 2), not as a
+// violation with a counterexample.  Pass-only guard, thorough tier.
 #[kani::proof]
 #[kani::unwind(5)]
 #[kani::should_panic]
@@ -118,5 +123,7 @@ fn c16_kfold_k1_refused() {
         n_splits: 1,
         shuffle: false,
     };
+    // nothing after the refusing call is reachable, so the vacuity guard sits immediately before it
+    kani::cover!(kf.n_splits() < 2);
     let _ = kf.split(&x);
 }
